@@ -140,7 +140,7 @@ class Runner:
             ctx.count("run_" + b["kind"] + ("_ok" if real[0] == "ok" else "_" + str(real[1]).split(":")[0]))
             if guards["core"]:
                 ctx.count("core_fragment")
-            if guards["core2"]:
+            if guards["core2"] or guards["core3"]:
                 ctx.count("proved_fragment")
             oracle_fail = None
             if real != s:
@@ -166,9 +166,9 @@ class Runner:
                 continue
             ctx.validated()
             if oracle_fail:
-                if guards["core2"] and guards["wf"] and guards["noalias"] and guards["rbw"]:
-                    # contradicts scoping_correct_loopfilter_with on an input where model == engine
-                    ctx.reject(case, "theorem scoping_correct_loopfilter_with contradicted: " + oracle_fail, None)
+                if (guards["core2"] or guards["core3"]) and guards["wf"] and guards["noalias"] and guards["rbw"]:
+                    # contradicts scoping_correct_loopfilter_with / _macrodefs on an input where model == engine
+                    ctx.reject(case, "a proved theorem (scoping_correct_*) is contradicted: " + oracle_fail, None)
                 elif not guards["noalias"]:
                     ctx.reject(case, oracle_fail, SIG_NFKC)
                     ctx.count("oracle_known_nfkc")
